@@ -530,6 +530,26 @@ fn run_prog<T: FloatT>(exp: &Value) -> Value {
                 }
                 Value::Array(out)
             }
+            // like "uss", and additionally every answer inside the given [from, to] step ranges (1-based) is kept
+            "usr" => {
+                let i = op[1].as_u64().unwrap() as usize;
+                let k = op[3].as_u64().unwrap() as usize;
+                let ranges: Vec<(usize, usize)> = op[4]
+                    .as_array()
+                    .unwrap()
+                    .iter()
+                    .map(|r| (r[0].as_u64().unwrap() as usize, r[1].as_u64().unwrap() as usize))
+                    .collect();
+                let mut out = Vec::new();
+                for (j, x) in op[2].as_array().unwrap().iter().enumerate() {
+                    g_update(&mut slots[i], input::<T>(x, unit));
+                    let step = j + 1;
+                    if step % k == 0 || ranges.iter().any(|(a, b)| step >= *a && step <= *b) {
+                        out.push(json!([step, g_last(&mut slots[i])]));
+                    }
+                }
+                Value::Array(out)
+            }
             "clone" => {
                 let s = op[1].as_u64().unwrap() as usize;
                 let d = op[2].as_u64().unwrap() as usize;
